@@ -118,6 +118,15 @@ class SessionRules(Rule):
                         order.append((now_pub[0].n, (had_tx[0].seq, had_tx[0].ci, had_tx[0].n), rq))
                     if now_rel:
                         L.violate("C12", "M2", "PUBREL-without-PUBREC", "PUBREL id %r written at resume without PUBREC" % rq.msgId)
+            # held-back messages are released as the window allows
+            if s.fifo and (c.profile & PUBB) and c.closing is None and not d.aborted:
+                head = [r for r in s.fifo if not (r.fires and r.fires[0][0] == d.seq and not r.fires[0][1])]
+                inflight = sum(1 for r in s.reqs if r.kind == "publish" and r.qos and r.pending and r.tx and r.ack1 is None)
+                if head and (not head[0].qos or inflight < c.window):
+                    L.probe("held_back_at_resume")
+                    L.violate("C12", "M3", "held-back-not-released:%s" % ("qos0" if not head[0].qos else "window-has-room"),
+                              "after the resuming CONNACK %d message(s) are still held back although %d of %d window slots are in use"
+                              % (len(head), inflight, c.window))
             order.sort(key=lambda x: x[0])
             orig = [x[1] for x in order]
             if orig != sorted(orig):
